@@ -102,7 +102,7 @@ func c19Sig(o *rt.Outcome) string {
 
 func c19(ctx *core.Ctx) {
 	quietLogs()
-	ctx.Rule("generated configurations (route table on the router's full template fragment, recording filters at all three levels labelled with their route/service, a filter writing a per-request attribute and a per-request key into PathParameters(), a HandleWithFilter handler, 0-5 extra container filters, CORS filter with configured or computed methods, OPTIONS filter, content encoding, handlers writing raw bytes or negotiated entities; both routers; Dispatch or ServeHTTP). For each request of a multiset of 40 (hits, near misses, adversarial, malformed Accept, CORS actual and preflight requests for different URLs, Accept-Encoding) the reference is the answer of a FRESH container to that request alone through the same entry point. Then (a) a 200-request sequential history in random order with repetitions, (b) batches released together from 16 goroutines, (c) the sequential history again with trace logging on: status, all headers, decoded body, path parameters, selected route and attributes seen by every filter/handler must equal the reference. Race detector on. Non-trivial = a compared response of a request that ran at least one filter or handler; distinct by (configuration shape, phase, outcome class).")
+	ctx.Rule("generated configurations (route table on the router's full template fragment, recording filters at all three levels labelled with their route/service, a filter writing a per-request attribute and a per-request key into PathParameters(), a HandleWithFilter handler, 0-5 extra container filters, CORS filter with configured or computed methods, OPTIONS filter, content encoding, handlers writing raw bytes or negotiated entities; both routers; Dispatch or ServeHTTP). For each request of a multiset of 40 (hits, near misses, adversarial, malformed Accept, CORS actual and preflight requests for different URLs, Accept-Encoding) the reference is the answer of a FRESH container to that request alone through the same entry point. Then (a) a 200-request sequential history in random order with repetitions, every 5th step preceded by the same request from a client whose connection fails on every body write, (b) batches released together from 16 goroutines, (c) the sequential history again with trace logging on: status, all headers, decoded body, path parameters, selected route and attributes seen by every filter/handler must equal the reference. Race detector on. Non-trivial = a compared response of a request that ran at least one filter or handler; distinct by (configuration shape, phase, outcome class).")
 	ctx.Assume("the reference is per (request, entry point): ServeHTTP answers unregistered prefixes from net/http's mux")
 	defer restful.EnableTracing(false)
 	configs := ctx.N(50, 1500)
@@ -197,7 +197,15 @@ func c19(ctx *core.Ctx) {
 		for k := range hist {
 			hist[k] = r.Intn(len(reqs))
 		}
-		for _, i := range hist {
+		for step, i := range hist {
+			if step%5 == 4 {
+				// the same request from a client that went away: every body write fails. What the framework does with
+				// that response is not compared; what it answers afterwards is.
+				lost := rt.NewRec()
+				lost.FailBody = true
+				rt.RunRec(c, cf.Entry, &reqs[i], lost)
+				ctx.Count("requests_with_failing_writer", 1)
+			}
 			compare(i, rt.Run(c, cf.Entry, &reqs[i]), "sequential")
 		}
 		// (b) concurrent batches
